@@ -92,6 +92,9 @@ func doRequest(c *mainsvc.FFooClient, ctx frugal.FContext, shape string, bulk, f
 	if shape == "tag" {
 		return c.Echo(ctx, smallPayload(), text(bulk+fine))
 	}
+	if shape == "headers-alone" {
+		ctx.AddRequestHeader(bigHeader, text(bulk+fine))
+	}
 	return c.Echo(ctx, shapes[shape].build(bulk, fine), "req")
 }
 
@@ -107,6 +110,12 @@ func doResponse(c *mainsvc.FFooClient, ctx frugal.FContext, shape string, bulk, 
 	p, err := c.Echo(ctx, smallPayload(), fmt.Sprintf("resp|%s|%d|%d", shape, bulk, fine))
 	if err != nil {
 		return "", err
+	}
+	if shape == "headers-alone" {
+		// the big response header must have arrived whole
+		if v, _ := ctx.ResponseHeader(bigHeader); v != text(bulk+fine) {
+			return fmt.Sprintf("response header %s has %d bytes, want %d", bigHeader, len(v), bulk+fine), nil
+		}
 	}
 	return digest(p), nil
 }
@@ -271,4 +280,30 @@ func (m *measurer) canarySizes() (req, resp, marker int) {
 		}
 	}
 	return
+}
+
+// headerBlockOf measures frame prefix + header block of the headers-alone
+// message with an EMPTY big header, in direction "req" or "resp".
+func (m *measurer) headerBlockOf(dir string) int {
+	m.mu.Lock()
+	defer m.mu.Unlock()
+	m.leg.Tap.Reset()
+	ctx := newCtx(normalTimeout)
+	var err error
+	if dir == "req" {
+		_, err = doRequest(m.client, ctx, "headers-alone", 0, 0)
+	} else {
+		_, err = doResponse(m.client, ctx, "headers-alone", 0, 0)
+	}
+	if err != nil {
+		return 0
+	}
+	reqs, reps := m.leg.Tap.Snapshot()
+	if dir == "req" && len(reqs) == 1 {
+		return frameHeaderBytes(reqs[0])
+	}
+	if dir != "req" && len(reps) == 1 {
+		return frameHeaderBytes(reps[0])
+	}
+	return 0
 }
